@@ -6,6 +6,10 @@
 //! through every read path of the `Storage` trait:
 //!   row <hex bytes of the text>    ->   get=<ok:stamp|err|panic> meta=<ok:stamp|err|panic> alive=<0|1>
 //! `alive` = a well-formed row of another keyspace can still be written and read afterwards.
+//!   bulk <n> <pos>                 ->   a `multi_put` of n documents whose <pos>-th row is refused by the
+//!                                       database (a trigger): the call must fail, NOTHING of the batch may
+//!                                       be visible (the backend reports no successful ids), and the storage
+//!                                       must keep serving single and bulk writes: `err rows=0 after=ok`
 //! The model (Ts.v `parse`) says: readable exactly when the text parses, otherwise an error on
 //! both paths, and the storage keeps serving.
 
@@ -72,6 +76,52 @@ async fn run_row(w: &mut CaseWriter, text: &[u8]) {
     }
 }
 
+async fn run_bulk(w: &mut CaseWriter, n: u64, pos: u64) {
+    let case = format!("bulk {:x} {:x}", n, pos);
+    let storage = match SqliteStorage::open_in_memory().await {
+        Ok(s) => Arc::new(s),
+        Err(_) => {
+            w.case(&case, "?open");
+            return;
+        },
+    };
+    let ts = |i: u64| HLCTimestamp::new(std::time::Duration::from_secs(100 + i), 0, 1);
+    // the table exists once something was written
+    let _ = storage.put("warm", Document::new(1, ts(0), b"w".to_vec())).await;
+    let trigger = format!(
+        "CREATE TRIGGER refuse_row BEFORE INSERT ON state_entries WHEN NEW.keyspace = 'bulk' AND NEW.doc_id = {} BEGIN SELECT RAISE(ABORT, 'refused'); END;",
+        pos
+    );
+    if storage.handle().execute(&trigger, ()).await.is_err() {
+        w.case(&case, "?trigger");
+        return;
+    }
+    let docs: Vec<Document> = (1..=n).map(|i| Document::new(i, ts(i), vec![i as u8])).collect();
+    let res = storage.multi_put("bulk", docs.into_iter()).await;
+    let rows = storage.iter_metadata("bulk").await.map(|it| it.count()).unwrap_or(usize::MAX);
+    // afterwards: a single write and a bulk write elsewhere, and a bulk into the same keyspace
+    // without the refused id
+    let single = storage.put("after", Document::new(7, ts(50), b"s".to_vec())).await.is_ok();
+    let bulk2 = storage
+        .multi_put("after", (20..23u64).map(|i| Document::new(i, ts(60 + i), vec![1])))
+        .await
+        .is_ok();
+    let seen = storage.iter_metadata("after").await.map(|it| it.count()).unwrap_or(usize::MAX);
+    let after_ok = single && bulk2 && seen == 4;
+    let r = if res.is_err() { "err" } else { "ok" };
+    w.case(&case, &format!("{} rows={} after={}", r, rows, if after_ok { "ok" } else { "broken" }));
+    w.stats.hit("bulk_with_refused_row");
+    if res.is_ok() {
+        w.fail("failed-bulk-reported-as-success", &case, "");
+    }
+    if rows != 0 {
+        w.fail("failed-bulk-left-rows-behind", &case, &format!("{} rows of the failed batch are visible", rows));
+    }
+    if !after_ok {
+        w.fail("storage-unusable-after-failed-bulk", &case, &format!("single={single} bulk={bulk2} rows seen={seen}"));
+    }
+}
+
 fn main() {
     quiet_panics();
     let args = Args::parse();
@@ -83,6 +133,9 @@ fn main() {
                 let t: Vec<&str> = line.split_whitespace().collect();
                 if t.first() == Some(&"row") {
                     run_row(&mut w, &unhex_bytes(t.get(1).copied().unwrap_or(""))).await;
+                }
+                if let ["bulk", n, pos] = t.as_slice() {
+                    run_bulk(&mut w, u64::from_str_radix(n, 16).unwrap_or(1), u64::from_str_radix(pos, 16).unwrap_or(1)).await;
                 }
             }
             return;
@@ -96,6 +149,12 @@ fn main() {
         ];
         for f in fixed {
             run_row(&mut w, f.as_bytes()).await;
+        }
+        // bulk writes with one refused row, at every position of batches of 1..5
+        for n in 1..=5u64 {
+            for pos in 1..=n {
+                run_bulk(&mut w, n, pos).await;
+            }
         }
         // random: valid texts, valid texts with one character changed, digit soup
         let n = if args.thorough() { 3000 } else { 300 };
